@@ -15,24 +15,10 @@ Record case := mkcase {
   cval : gv;                (* the typed value encoded *)
   ctree : item }.           (* dump of the interface{} the real Decoder produced *)
 
-(* a nil []byte under NilCollectionToZeroLength is written through the driver's writeNilBytes, not through
-   EncodeStringBytesRaw (which is what Generic/Enc.v's IBytes [] stands for): a zero-length byte string in cbor
-   and simple, a zero-length STRING (fixstr 0) in msgpack even with WriteExt, and a zero-length ARRAY in binc
-   (binc.go writeNilBytes uses the bincVdArray descriptor).  Since F05-7 every path of a format writes the same
-   thing.  All three are "empty" to every consumer; the comparison identifies them, only under that option. *)
-Fixpoint relax (i : item) : item :=
-  match i with
-  | IBytes [] => IArr []
-  | IStr [] => IArr []
-  | IArr l => IArr (map relax l)
-  | IMap l => IMap (map (fun kv => (relax (fst kv), relax (snd kv))) l)
-  | _ => i
-  end.
-
 Definition check_case (c : case) : bool :=
   wt (cty c) (cval c) &&
   match naked_tree (cfo c) (mknopts (cmapstr c) false) (to_item (cgo c) id_order (cval c)) with
-  | Ok g => eqm g (ctree c) || (nil_to_empty (cgo c) && eqm (relax g) (relax (ctree c)))
+  | Ok g => eqm g (ctree c)
   | _ => false
   end.
 
